@@ -235,7 +235,7 @@ def validate_with_cfg(ctx, trace_path, cfg_path, nlines):
     import tempfile
     wd = tempfile.mkdtemp(prefix="tv-", dir=ctx.scratch)
     shutil.copy(trace_path, os.path.join(wd, "trace.ndjson"))
-    r = ctx.tlc("Server_Trace", cfg_path, workers=1, workdir=wd, quiet=True)
+    r = ctx.tlc("Server_Trace", cfg_path, workers=1, workdir=wd, quiet=True, timeout=1800 if ctx.quick() else 5400)
     m = re.findall(r"TRACE_HWM[^0-9]*(\d+)", r["out"])
     lvals = [int(x) for x in re.findall(r"^/\\ l = (\d+)", r["out"], re.M)]
     if r["errors"] and lvals and any("Invariant" in e for e in r["errors"]):
